@@ -1,9 +1,15 @@
 (* C10 — leaking a drain is safe: after mem::forget at any point of any
    script the state is well formed, its contents (the model: none) are drawn
-   from the original ones and disjoint from what was yielded, and no
-   destructor ran; all later behaviour is that of a well-formed buffer. *)
-From CB Require Import Spec.
-From CBP Require Import RefDefs DrainP.
-Theorem C10_drain_forget : forall sb eb script, refines_op (ODrain sb eb script true).
-Proof. exact drain_forget_op. Qed.
+   from the original ones and disjoint from what was yielded, no destructor ran;
+   every later operation is covered by the theorems for well-formed states.
+   This file only pins statements; proofs are in coq/proofs/. *)
+From CB Require Import Spec Unstable.
+From Coq Require Import Permutation.
+From CBP Require Import Step RefDefs C02Lemmas Arith AbsLemmas AllOps FaultDefs FaultPrims FaultDropA FaultDropB FaultUser
+     Iters DrainP ExtendIo CmpHash Ctors PhysMoves UnstableEq Access Views RefTruncate FillExtend.
+
+
+Theorem C10_drain_forget :
+  forall sb eb script, refines_op (ODrain sb eb script true).
+Proof. exact (drain_forget_op). Qed.
 Print Assumptions C10_drain_forget.
